@@ -94,7 +94,7 @@ class Gen:
             if k == 0:
                 self.emit('const/4', v.reg, rng.randrange(-8, 8) if val is None else val); self.feat.add('const/4')
             elif k == 1:
-                self.emit('const/16', v.reg, rng.choice((rng.randrange(-32768, 32768), 100, -100, 255)) if val is None else val)
+                self.emit('const/16', v.reg, rng.choice((rng.randrange(-32768, 32768), 100, -100, 255, rng.randrange(0, 128), rng.randrange(32, 127))) if val is None else val)
                 self.feat.add('const/16')
             elif k == 2 or k == 4:
                 self.emit('const', v.reg, rng.choice((rng.randrange(-2 ** 31, 2 ** 31), 0x7FFFFFFF, -0x80000000, 65536, 123456789)) if val is None else val)
@@ -117,7 +117,7 @@ class Gen:
 
     def src(self, ty, live):
         """an assigned variable of type ty (creating a constant in a local if there is none)"""
-        c = [v for v in live if v.ty == ty]
+        c = sorted((v for v in live if v.ty == ty), key=lambda v: v.reg)   # (sets of objects iterate in address order)
         if c and self.rng.random() < 0.93:
             return self.rng.choice(c)
         pool = self.ilocals if ty == 'I' else self.llocals
@@ -237,8 +237,17 @@ class Gen:
         """returns (emit_jump(cond_true_label, negate)) closure data: ('rr', c, a, b) | ('rz', c, a) after emitting
         whatever computes a long comparison"""
         rng = self.rng
-        k = rng.randrange(4)
+        k = rng.randrange(5)
         c = rng.choice(CONDS)
+        if k == 4:
+            # a char-typed operand compared with a small constant (an ASCII code)
+            x = self.src('I', live)
+            self.emit('int-to-char', self.tmp.reg, x.reg)
+            d = self.rng.choice(self.ilocals)
+            self.emit('const/16', d.reg, rng.randrange(0, 128))
+            live.add(d)
+            self.feat.add('char-vs-const')
+            return ('rr', c, self.tmp, d)
         if k == 0:
             return ('rr', c, self.src('I', live), self.src('I', live))
         if k == 1:
